@@ -130,3 +130,47 @@ fn probe_f6_oracle_rollback_forgets_older_stamp() {
 	assert!(r.is_err(), "T2 must conflict with T0's commit at 5");
 }
 
+
+#[tokio::test]
+async fn probe_d2_open_upper_contents() {
+	let (tree, _d, _opts) = mk(2);
+	{ let mut t = tree.begin().unwrap(); t.set(b"k", b"v1").unwrap(); t.set(b"b", b"v0").unwrap(); t.commit().await.unwrap(); }
+	let mut w = tree.begin().unwrap(); w.set(b"m", b"1").unwrap(); w.set(b"a", b"0").unwrap();
+	let mut ro = ReadOptions::new();
+	ro.set_iterate_lower_bound(Some(b"b".to_vec()));
+	let mut it = w.range_with_options(&ro).unwrap();
+	let mut keys = vec![];
+	let mut ok = it.seek_first().unwrap();
+	while ok { keys.push(it.key().user_key().to_vec()); ok = it.next().unwrap(); }
+	println!("PROBE_D2 lower-only keys: {:?}", keys);
+	assert_eq!(keys, vec![b"b".to_vec(), b"k".to_vec(), b"m".to_vec()]);
+	let ro2 = ReadOptions::new();
+	let mut it = w.range_with_options(&ro2).unwrap();
+	let mut keys = vec![];
+	let mut ok = it.seek_last().unwrap();
+	while ok { keys.push(it.key().user_key().to_vec()); ok = it.prev().unwrap(); }
+	println!("PROBE_D2 unbounded backward keys: {:?}", keys);
+	assert_eq!(keys, vec![b"m".to_vec(), b"k".to_vec(), b"b".to_vec(), b"a".to_vec()]);
+	let mut it = w.range(b"z", b"a").unwrap();
+	assert!(!it.seek_first().unwrap());
+	assert!(!it.seek_last().unwrap());
+	let mut it = w.range(b"k", b"k").unwrap();
+	assert!(!it.seek_first().unwrap());
+}
+
+#[tokio::test]
+async fn probe_f8_erased_version_returns() {
+	use crate::WriteOptions;
+	let d = TempDir::new("probe").unwrap();
+	let (tree, opts) = TreeBuilder::new().with_path(d.path().to_path_buf()).with_level_count(2).with_versioning(true, 0).build_with_options().unwrap();
+	{ let mut t = tree.begin().unwrap(); t.set_at(b"k", b"v1", 800).unwrap(); t.commit().await.unwrap(); }
+	{ let mut t = tree.begin().unwrap(); t.delete_with_options(b"k", &WriteOptions::new().with_timestamp(Some(900))).unwrap(); t.commit().await.unwrap(); }
+	{ let mut t = tree.begin().unwrap(); t.set_at(b"k", b"v3", 950).unwrap(); t.commit().await.unwrap(); }
+	let before = { let r = tree.begin().unwrap(); r.get_at(b"k", 920).unwrap() };
+	tree.flush().unwrap();
+	let mid = { let r = tree.begin().unwrap(); r.get_at(b"k", 920).unwrap() };
+	tree.compact(strat(&opts)).unwrap();
+	let after = { let r = tree.begin().unwrap(); r.get_at(b"k", 920).unwrap() };
+	println!("PROBE_F8E get_at(920) before={:?} after_flush={:?} after_compact={:?}", before, mid, after);
+	assert_eq!(before, after);
+}
